@@ -8,9 +8,10 @@ CONSTANTS
   NoOpnSnapshot = FALSE
   Kinds = {"multi", "batch2"}
   KeyChunks = 2
-  TornTailFails = FALSE
-  RoaringTwoWrites = FALSE
-  RowOpAsync = FALSE
+  TornTailFails = TRUE
+  RoaringTwoWrites = TRUE
+  RowOpAsync = TRUE
+  MultiSeparateWrites = TRUE
   Contentless = FALSE
 INIT Init
 NEXT Next
